@@ -156,6 +156,10 @@ pub fn run(case: &Value, _params: &Params, out: &mut Vec<Value>) {
                 // bulk forms see the whole list; single forms see only the first q
                 let bulk_case = case.clone();
                 emit(out, &bulk_case, "quantiles_axis_mut", order, guarded(|| qres(an.clone().quantiles_axis_mut(Axis(axis), &qarr, &Lower).map(|_| ()), &qs)), None);
+                // the same request list as a reversed view of a buffer holding it back to front
+                let qback: Array1<N64> = qs.iter().rev().map(|&q| n64(q)).collect();
+                let qrev = qback.slice(ndarray::s![..;-1]);
+                emit(out, &bulk_case, "quantiles_axis_mut_reversed_request_view", order, guarded(|| qres(an.clone().quantiles_axis_mut(Axis(axis), &qrev, &Lower).map(|_| ()), &qs)), None);
                 if s1.len() == 1 {
                     let a1 = an.clone().into_dimensionality::<Ix1>().unwrap();
                     emit(out, &bulk_case, "quantiles_mut", order, guarded(|| qres(a1.clone().quantiles_mut(&qarr, &Linear).map(|_| ()), &qs)), None);
